@@ -3857,6 +3857,17 @@ func (w *Wallet) reliablyPublishTransaction(tx *wire.MsgTx,
 	// on-chain. This is done outside of the database transaction to prevent
 	// backend interaction within it.
 	if err := chainClient.NotifyReceived(ourAddrs); err != nil {
+		// The transaction is not going to be broadcast, so it must
+		// not stay behind in the store as an unconfirmed spend.
+		dbErr := walletdb.Update(w.db, func(dbTx walletdb.ReadWriteTx) error {
+			txmgrNs := dbTx.ReadWriteBucket(wtxmgrNamespaceKey)
+			return w.TxStore.RemoveUnminedTx(txmgrNs, txRec)
+		})
+		if dbErr != nil {
+			log.Warnf("Unable to remove unpublished transaction "+
+				"%v: %v", tx.TxHash(), dbErr)
+		}
+
 		return nil, err
 	}
 
